@@ -10,6 +10,7 @@
 #include "hcommon.h"
 #include "rng.h"
 #include "vsched.h"
+#include "dfs.h"
 #include "watchdog.h"
 
 using namespace Vector::BLF;
@@ -29,13 +30,16 @@ int main(int argc, char ** argv) {
     hc::out_init();
     if (argc < 5) return 2;
     uint64_t seed = strtoull(argv[2], nullptr, 0); long from = atol(argv[3]), to = atol(argv[4]);
+    bool dfsmode = std::string(argv[1]) == "c16dfs";     // systematic: every schedule with <= 2 preemptions of each configuration
+    int dfs_bound = argc > 5 ? atoi(argv[5]) : 2; uint64_t dfs_max = argc > 6 ? strtoull(argv[6], nullptr, 0) : 400000; uint64_t dfs_exec = 0, dfs_trunc = 0, dfs_cfgs = 0, dfs_maxdepth = 0;
     wd::start();
     long sessions = 0, nulls = 0, aborts = 0, delivered = 0, left = 0, cap_checks = 0; std::set<uint64_t> sigs; std::string sample;
     for (long idx = from; idx < to; idx++) {
         hc::begin_case(std::to_string(idx));
-        wd::arm(60, "c16c");
+        wd::arm(dfsmode ? 1200 : 60, "c16c");
         Rng r(Rng::mix(seed ^ 0xC16C, (uint64_t)idx));
-        uint32_t cap = 1 + r.below(3); uint32_t n = r.below(5); int xkind = r.below(3); bool xabort = xkind == 1; bool xfull = xkind == 2; int xdelay = r.below(12);   // X: 0 setFileSize(tellp), 1 abort, 2 setFileSize(n) = total length declared up front
+        uint32_t cap = 1 + r.below(3); uint32_t n = r.below(5); int xkind = r.below(3);
+        if (dfsmode) { cap = 1 + (uint32_t)(idx % 3); n = (uint32_t)((idx / 3) % 4); xkind = (int)((idx / 12) % 3); } bool xabort = xkind == 1; bool xfull = xkind == 2; int xdelay = dfsmode ? 0 : r.below(12);   // X: 0 setFileSize(tellp), 1 abort, 2 setFileSize(n) = total length declared up front
         int strategy = r.chance(3, 4) ? SCHED_RANDOM : SCHED_FAVOUR; int sparam = r.below(3);
         std::ostringstream cfg; cfg << "cap=" << cap << " n=" << n << " x=" << (xabort ? "abort" : xfull ? "setFileSize(n)" : "setFileSize(tellp)") << (idx % 2 ? " spurious" : "") << " delay=" << xdelay << " strategy=" << strategy << "/" << sparam;
         static std::string ctx; ctx = cfg.str() + " case=" + std::to_string(idx);
@@ -43,11 +47,14 @@ int main(int argc, char ** argv) {
             std::string rr = report; for (auto & ch : rr) if (ch == '\n') ch = '|';
             printf("@viol conc:%s:%s :: %s || %s\n", kind, key, ctx.c_str(), rr.c_str()); fflush(stdout); _exit(42);
         };
+        if (dfsmode) dfs::begin(dfs_bound);
+        do {
+        if (dfsmode) dfs::start_execution();
         std::vector<Ev> wlog(n), rlog; rlog.reserve(n + 2); Ev xev{}; Ev cabort{}; cabort.done = false;
         long base = Tok::live;
         std::string err;
         sched_set_budget(100000);
-        sched_set_spurious(idx % 2 ? 40 : 0); sched_set_timeouts(idx % 4 == 3 ? 30 : 0);      // spurious wake-ups are legal for predicate waits
+        sched_set_spurious(!dfsmode && idx % 2 ? 40 : 0); sched_set_timeouts(!dfsmode && idx % 4 == 3 ? 30 : 0);      // spurious wake-ups are legal for predicate waits
         sched_begin(Rng::mix(seed, (uint64_t)idx), strategy, sparam);
         {
             ObjectQueue<ObjectHeaderBase> q;
@@ -116,13 +123,15 @@ int main(int argc, char ** argv) {
         long leftover = 0; for (uint32_t i = 0; i < n; i++) if (wlog[i].done) leftover++; leftover -= got; left += leftover;
         if (Tok::live != base) viol("objects-leaked-or-double-freed", "live delta " + std::to_string(Tok::live - base));
         if (sample.empty() && n >= 3) sample = cfg.str() + " log: " + hist;
+        } while (dfsmode && dfs::next_execution(dfs_max));
+        if (dfsmode) { dfs_exec += dfs::executions; dfs_cfgs++; if (dfs::truncated) dfs_trunc++; if (dfs::max_depth > dfs_maxdepth) dfs_maxdepth = dfs::max_depth; dfs::end(); }
         wd::disarm();
     }
     char sites[2048]; sched_site_counts(sites, sizeof sites);
     std::string s(sites); long blocked = 0; size_t p = s.find("\"ObjectQueue::write\":"); if (p != std::string::npos) blocked = atol(s.c_str() + p + 21);
     std::ostringstream o;
     o << "{\"sessions\":" << sessions << ",\"distinct_signatures\":" << sigs.size() << ",\"delivered\":" << delivered << ",\"null_results\":" << nulls << ",\"aborts\":" << aborts
-      << ",\"left_for_destructor\":" << left << ",\"capacity_checks\":" << cap_checks << ",\"producer_blocked_at_capacity\":" << blocked << ",\"blocked_at\":{" << sites << "},\"samples\":[" << hc::jstr(sample) << "]}";
+      << ",\"left_for_destructor\":" << left << ",\"capacity_checks\":" << cap_checks << ",\"producer_blocked_at_capacity\":" << blocked << ",\"dfs_configurations\":" << dfs_cfgs << ",\"dfs_executions\":" << dfs_exec << ",\"dfs_truncated_configurations\":" << dfs_trunc << ",\"max_decisions_per_execution\":" << dfs_maxdepth << ",\"blocked_at\":{" << sites << "},\"samples\":[" << hc::jstr(sample) << "]}";
     hc::stat(o.str());
     return 0;
 }
